@@ -498,6 +498,20 @@ static void run_op(struct prog_s * p, char * op) {
         free(b);
         return;
     }
+    if (!strcmp(c, "stall")) {   /* statistics over the whole readable signal: start 0, given increment, count = len / incr */
+        uint16_t sig = (uint16_t) TOKU(1); int64_t incr = TOKI(2);
+        int64_t n = -1; int32_t rc = jls_rd_fsr_length(p->rd, sig, &n);
+        if (rc || incr <= 0) { printf(" %d", rc ? rc : -1); return; }
+        int64_t count = n / incr;
+        if (count > 4096) count = 4096;
+        if (count < 1) { printf(" 0 %" PRId64 " 0", n); return; }
+        double * d = malloc((size_t) count * 4 * sizeof(double));
+        rc = jls_rd_fsr_statistics(p->rd, sig, 0, incr, d, count);
+        printf(" %d %" PRId64 " %" PRId64, rc, n, count);
+        for (int64_t i = 0; !rc && i < count * 4; ++i) { uint64_t u; memcpy(&u, &d[i], 8); printf(" %016" PRIx64, u); }
+        free(d);
+        return;
+    }
     if (!strcmp(c, "st")) {
         uint16_t sig = (uint16_t) TOKU(1); int64_t start = TOKI(2), incr = TOKI(3), count = TOKI(4);
         size_t n = count > 0 ? (size_t) count * 4 : 0;
